@@ -143,10 +143,11 @@ def run_one(ck, tm, tier, ws):
                       "verifier pushes on this path: %d (before the first effect: %s)" % (len(pv), ok), where(pv[0]) if pv else None)
     ck.floor("R6.6", "paths-storing-the-verifier", nst, 1)
     # R6.7 the count an installation is judged on starts at zero (shared with C07 R7.1)
-    from .c07 import install_resets_counter, verdict_under_lock
+    from .c07 import install_resets_counter, verdict_under_lock, verifiers_kept_until_scope_exit
     install_resets_counter(ck, tm, "R6.7")
     # R6.8 ... and is read for the verdict while the injector lock is still held (shared with C07 R7.3)
     verdict_under_lock(ck, tm, "R6.8")
+    verifiers_kept_until_scope_exit(ck, tm, "R6.8")
 
 
 def hm_times():
